@@ -490,6 +490,69 @@ def T1(ctx, rule="T1", kinds=None):
             ctx.unverifiable(rule, "floor-family|%s" % f, "-", "no public entry point of family %s discovered" % f)
 
 
+def T6(ctx, rule="T6"):
+    """the countdown of remaining functions moves in steps of exactly one: every subtraction from (and addition to) a value that
+    derives from the number of functions subtracts the constant 1. `-= 2` steps over the `== 0` test on an odd count (the
+    channel is never released) or reaches it early; `-= 0` never reaches it."""
+    m, fl = ctx.model, ctx.model.flow
+    from analysis import expr_rvalue
+    n = 0
+    sched = set()
+    for e in m.entries:
+        sched |= set(m.reach(e["id"]))
+    for bid in sorted(sched):
+        b = ctx.fb.bodies.get(bid)
+        if b is None or ctx.fb.is_test_body(b):
+            continue
+        for bb, si, st in b.stmts():
+            if st["k"] != "assign" or st["rv"]["k"] not in ("binop", "checked_binop") or st["rv"].get("op") not in (
+                    "Sub", "SubWithOverflow", "Add", "AddWithOverflow"):
+                continue
+            a_, b_ = st["rv"]["a"], st["rv"]["b"]
+            if a_["k"] == "const":
+                continue
+            aty = (a_.get("pl") or {}).get("ty") or ""
+            if aty != "usize":
+                continue
+            srcs = fl.sources_operand(b, a_, (), "taint")
+            if not any(x.kind == "alloc" and x[4] in NODE_COUNT_FNS for x in srcs):
+                continue
+            # only values that are later compared with 0 / held in the fold state: the counters (an index computation
+            # such as `len - 1` is not a countdown) -> the result is written back to the place it was read from
+            v = expr_rvalue(b, st["rv"], 0, (bb, si))
+            dst = st["pl"]
+            back = (not dst["p"] and not a_["pl"]["p"] and dst["l"] == a_["pl"]["l"]) or _written_back(b, bb, si, st, a_)
+            if not back:
+                continue
+            n += 1
+            op = st["rv"]["op"]
+            one = b_["k"] == "const" and str(b_.get("bits", b_.get("val"))).split("_")[0] in ("1", "0x1", "1usize")
+            if op.startswith("Sub") and one:
+                ctx.ok(rule, "step|%s" % short(b.id), m.where(b, bb), "the countdown is decremented by exactly 1")
+            else:
+                ctx.bad(rule, "step|%s" % short(b.id), m.where(b, bb),
+                        "the countdown of remaining functions changes by `%s %s`, not by `- 1`: its `== 0` test is stepped over or reached early/never" % (
+                            "-" if op.startswith("Sub") else "+", fmt_expr(expr_operand(b, b_), b)))
+    if n < 2:
+        ctx.unverifiable(rule, "floor", "-", "expected >= 2 countdown decrements in the scheduler bodies, found %d" % n)
+
+
+def _written_back(b, bb, si, st, a_):
+    """`x = x - 1` in MIR: `_t = Sub(copy x, 1); x = move _t` (possibly through a checked pair `(_t.0)`)"""
+    dst = st["pl"]
+    if dst["p"]:
+        return False
+    tl = dst["l"]
+    src_l, src_p = a_["pl"]["l"], a_["pl"]["p"]
+    for bb2 in [bb] + list(b.succs(bb)):
+        for st2 in b.blocks[bb2]["stmts"]:
+            if st2["k"] == "assign" and st2["rv"]["k"] == "use" and st2["rv"]["op"]["k"] != "const":
+                pl = st2["rv"]["op"]["pl"]
+                if pl["l"] == tl and st2["pl"]["l"] == src_l and st2["pl"]["p"] == src_p:
+                    return True
+    return False
+
+
 def T5(ctx, rule="T5"):
     """No premature release: every site that releases the done- or ready-sender
     is control dependent on one of the protocol's exits (empty graph, countdown
